@@ -159,6 +159,34 @@ PROPS["C19"] = {
     "assumptions": ["non-termination is observed as watchdog expiry / step budget, not proved impossible"],
 }
 
+BOTH = ("release", "checked")
+PROPS["C05"] = {
+    "level_text": "All five decoding entry points, in the release profile and in a profile with overflow checks and debug assertions; every call runs under catch_unwind and a watchdog and its outcome is an event; the trace specifications have no action for a panic or hang. Inputs are aimed by the specification at the thin sets: RS words with prescribed zero patterns of the syndrome vector (all 2^k patterns for k <= 7, single/double/alternating/leading zeros otherwise, built by solving the Vandermonde system), multiples of prod_{i<=m}(x-alpha^i) for every m, words beyond capacity; all codeword streams of length <= 2, <h,x,y> for every special codeword h, all ECI designator forms, every byte under every character set, random streams; pixel arrays of every width 0..150 with matching and non-matching lengths, every single finder module of every size flipped, random multi-flips.",
+    "level_note": "Trusts: catch_unwind + panic hook observe every panic; a hang is a 20 s watchdog expiry. TLC recomputes the syndromes of every received word, so the evidence reports which zero patterns were really presented.",
+    "jobs": [rs_job("C05", BOTH),
+             {"family": "dec", "spec": "Trace_Dec", "profiles": BOTH, "coverage": True},
+             {"family": "shapes", "spec": "Trace_Shapes", "profiles": BOTH},
+             {"family": "geom", "spec": "Trace_Geom", "profiles": ("checked",)}],
+    "rule": "one case = one call (or one batch of 256 calls) of decode_error / decode_data / decode_str / try_from_bits / decode with an input chosen as described; non-trivial = every case; distinct = (family, case id, profile)",
+    "assumptions": ["non-termination is observed, not proved impossible"],
+}
+STR_JOB = {"family": "str", "spec": "Trace_Str", "coverage": True}
+PROPS["C14"] = {
+    "level_text": "Trace_Str: encode_str -> the reader of Stream.tla is stepped over the produced codewords and must yield the Latin-1 bytes with no ECI, or ECI 26 at the body start followed by Utf8(string) (macro envelope recognised on the bytes); decode_str must return the same code points. Helper tables: utf8_to_latin1 for every scalar value (batches of 4096; thorough: all 272 batches), latin1_to_utf8 for all 256 bytes, mutual inverse on random byte strings.",
+    "level_note": "Trusts: Charsets.tla (Latin-1 = identity on 0xA0..0xFF, generated from Python's codecs), Utf8 encoder in TLA+ (ASSUME-tested at the boundaries).",
+    "jobs": [dict(STR_JOB, focus="C14")],
+    "rule": "strings over 16 representative code points (ASCII, controls, C1, Latin-1 supplement, BMP, U+FFFF, astral) up to length 3, random strings to 600 scalars, macro 05/06 enveloped bodies of every class x tail shape; non-trivial = encode_str succeeded; distinct = (code points, macro flag)",
+    "assumptions": [],
+}
+PROPS["C15"] = {
+    "level_text": "Trace_Str: (a) the designator written for ECI numbers 0..17500 and every 61st up to 999999 (thorough: all 1,000,000) equals EciCodewords(n); (b) decode_str on 241 + every one-, two- and (quick: boundary second codewords; thorough: all) three-codeword sequence + 'A' must be accepted iff the sequence is a designator (third codeword 0 and 255 rejected) with the supported/unsupported class of its value; (c) every byte 0..255 under ECI 0/3/11/13/26/27 and without ECI, ASCII- and Base256-encoded, must decode to exactly the character of Charsets.tla or CharsetError; (d) ECI 26: all one- and two-byte sequences, boundary three/four-byte sequences and random sequences are accepted iff Utf8Valid and decoded to the same code points.",
+    "level_note": "Trusts: Eci.tla (5.2.4.7 forms), Charsets.tla tables generated from Python's codecs (spec/gen_charsets.py).",
+    "jobs": [dict(STR_JOB, focus="C15")],
+    "rule": "batches of 1000 ECI numbers / 256 designator or byte values per event; non-trivial = every batch; distinct = case id",
+    "assumptions": ["the ECI number read back is observable only through the character set behaviour (supported / unsupported / rejected)"],
+    "exhaustive_thorough": True,
+}
+
 MC = {
     "MC_Codec": {"spec": "MC_Codec", "must_take": ["Write", "StartRead", "Read"], "timeout": 1800},
     "MC_Planner": {"spec": "MC_Planner", "must_take": ["PIterate"], "timeout": 600},
@@ -265,6 +293,14 @@ def account(pid, fam, case, verdict, ev):
                 ev["nontrivial"].add(hash(key))
             for m in set(verdict.get("latches", [])):
                 ev["notes"]["streams_latching_" + m] += 1
+    elif fam in ("str", "dec"):
+        ev["nontrivial"].add((fam, case["id"], case.get("profile", "")))
+        for e in case["events"]:
+            ev["notes"]["event_" + e["ev"]] += 1
+            if e["ev"] == "DecodeBatch":
+                ev["x_calls_in_batches"] = ev.get("x_calls_in_batches", 0) + 2 * e["n"]
+            if e["ev"] == "EncodeEci":
+                ev["x_eci_numbers"] = ev.get("x_eci_numbers", 0) + len(e["ns"])
     elif fam == "place":
         ev["nontrivial"].add(case["id"])
         ev["x_events_validated"] = ev.get("x_events_validated", 0) + len(case["events"])
